@@ -75,11 +75,32 @@ def picky_int_dumper(data):
     return data
 
 
+def stopiter_int_loader(data):
+    if type(data) is int and data < 0:
+        # the classic slip ``next(x for x in pool if x.value == data)`` with no match: StopIteration escapes the user's loader
+        raise StopIteration
+    return data
+
+
 def build_provs_c06(names):
-    out = build_provs([n for n in names if n != "picky_int"])
+    out = build_provs([n for n in names if n not in ("picky_int", "stopiter_int")])
     if "picky_int" in names:
         out = [loader(int, picky_int_loader), dumper(int, picky_int_dumper), *out]
+    if "stopiter_int" in names:
+        out = [loader(int, stopiter_int_loader), dumper(int, stopiter_int_loader), *out]
     return out
+
+
+def stopiter_cases():
+    """A user loader / dumper of the ITEMS of an iterable that lets StopIteration escape, for every iterable type and both directions."""
+    for cont in (["list", ["int"], "typing"], ["set", ["int"], "typing"], ["vtuple", ["int"], "typing"], ["deque", ["int"], "typing"],
+                 ["frozenset", ["int"], "typing"], ["abc", "Sequence", ["int"], "typing"], ["dict", ["str"], ["list", ["int"], "typing"], "typing"]):
+        datum = [1, -5, 2] if cont[0] != "dict" else {"$": "d", "v": [["k", [1, -5, 2]]]}
+        for strict in (True, False):
+            yield {"dir": "load", "t": cont, "datum": datum, "ops": ["stopiter"], "strict": strict, "provs": ["stopiter_int"], "layouts": {}}
+    for cont in (["list", ["int"], "typing"], ["vtuple", ["int"], "typing"], ["deque", ["int"], "typing"]):
+        val = {"$": "t", "v": [1, -5, 2]} if cont[0] == "vtuple" else {"$": "deque", "v": [1, -5, 2]} if cont[0] == "deque" else [1, -5, 2]
+        yield {"dir": "dump", "t": cont, "v": val, "bad": [], "strict": True, "provs": ["stopiter_int"], "layouts": {}}
 
 
 @st.composite
@@ -268,6 +289,12 @@ def check_case(ctx: runner.Ctx, case):  # noqa: C901, PLR0912
     head = f"dir={case['dir']} type={tspec.text(t)} strict={case['strict']} provs={case.get('provs')} " \
            f"layouts={case.get('layouts')} input={case.get('datum', case.get('v'))!r}"
 
+    if kinds == ["ok", "err", "err"] and "stopiter_int" in case.get("provs", []):
+        # known finding (see known_findings.json): the DISABLE variants of the iterable loader / dumper feed map(item_loader, data)
+        # to the container constructor, which takes a StopIteration escaping from the item loader for the end of the data
+        ctx.violation("disable_mode_truncates_on_stop_iteration", (case["dir"],), case,
+                      f"{head}: {[(n, k, describe(o[1]) if k == 'err' else repr(o[1])[:200]) for n, k, o in zip(NAMES, kinds, outs)]}")
+        return
     if kinds == ["ok", "ok", "err"] and "picky_int" in case.get("provs", []) and not isinstance(outs[2][1], LoadError) and \
             any(isinstance(x, ValueError) and "user loader refuses" in str(x) for x in all_nodes(outs[2][1])):
         # known finding (see known_findings.json): ALL goes on after the first LoadError of a model / container and so reaches a
@@ -317,12 +344,13 @@ def check_case(ctx: runner.Ctx, case):  # noqa: C901, PLR0912
 def explore(ctx: runner.Ctx):
     # the list-layout table of C04 (root containers of every wrong shape) through this property's differential oracle
     from props.c04_only_loaderror import (  # noqa: PLC0415
+        duck_table_cases,
         extra_field_table_cases,
         list_layout_table_cases,
         unhashable_element_table_cases,
     )
     seen, n_ll = set(), 0
-    for c in itertools.chain(list_layout_table_cases(), extra_field_table_cases(), unhashable_element_table_cases()):
+    for c in itertools.chain(list_layout_table_cases(), extra_field_table_cases(), unhashable_element_table_cases(), duck_table_cases()):
         key = (tspec.key_of(c["t"]), repr(c["datum"]), c["strict"])
         if key in seen:   # the table repeats each (type, datum, strict) per debug mode; all three modes are compared here anyway
             continue
@@ -334,6 +362,9 @@ def explore(ctx: runner.Ctx):
                             "layouts": c["layouts"]})
     ctx.mark_exhaustive(f"list-layout, extra-field and unhashable-element tables of C04: {n_ll} (type, datum, strict) triples compared across the "
                         f"three debug modes")
+    if ctx.shard == 0:
+        for c in stopiter_cases():
+            runner.guarded(ctx, lambda k: check_case(ctx, k), c)
     ctx.given(st_case(), lambda c: check_case(ctx, c), ctx.budget(8000, 300000))
 
 
